@@ -49,9 +49,9 @@ type c04Case struct {
 
 func (c04) Bounds(tier string) map[string]interface{} {
 	if tier == "thorough" {
-		return map[string]interface{}{"members": 9, "max_blocks": 3, "members_for_4_blocks": 8, "placements": []string{"onefile", "chain", "star", "star-rev"}}
+		return map[string]interface{}{"members": 9, "max_blocks": 3, "members_for_4_blocks": 8, "placements": []string{"onefile", "chain", "star", "star-rev", "tree"}}
 	}
-	return map[string]interface{}{"members": 7, "max_blocks": 3, "placements": []string{"onefile", "chain", "star", "star-rev"}}
+	return map[string]interface{}{"members": 7, "max_blocks": 3, "placements": []string{"onefile", "chain", "star", "star-rev", "tree"}}
 }
 
 func (c04) Cases(tier string, emit func(string, interface{})) {
@@ -85,9 +85,12 @@ func c04Cases(tier string, n, k, only int, emit func(string, interface{})) {
 			for _, p := range perm {
 				blocks = append(blocks, part[p+1])
 			}
-			for _, place := range []string{"onefile", "chain", "star", "star-rev"} {
+			for _, place := range []string{"onefile", "chain", "star", "star-rev", "tree"} {
 				if tier != "thorough" && nb == 3 && place == "star-rev" && perm[0] != 0 {
 					continue
+				}
+				if place == "tree" && nb < 3 {
+					continue // with two blocks it is the chain
 				}
 				emit("split", c04Case{Members: members, Blocks: blocks, Place: place})
 			}
@@ -142,6 +145,19 @@ func c04Files(cs c04Case) filesCase {
 				imp = "import sup\n"
 			}
 			files[name] = imp + render(cs.Blocks[i:i+1], i == 0)
+		}
+		files["sup.sysl"] = c04Support()
+	case "tree":
+		// r imports mid and then f2..fn; mid holds no block and imports f1: the merge order is the
+		// depth-first order r, mid, f1, f2.. (a breadth-first walk would take f2 before f1)
+		imps := "import mid\n"
+		for i := 2; i < len(cs.Blocks); i++ {
+			imps += fmt.Sprintf("import f%d\n", i)
+		}
+		files["r.sysl"] = imps + "import sup\n" + render(cs.Blocks[:1], true)
+		files["mid.sysl"] = "import f1\n"
+		for i := 1; i < len(cs.Blocks); i++ {
+			files[fmt.Sprintf("f%d.sysl", i)] = render(cs.Blocks[i:i+1], false)
 		}
 		files["sup.sysl"] = c04Support()
 	case "star", "star-rev":
